@@ -235,9 +235,9 @@ class Run(object):
                 print("VIOLATION property=%s replay=%s" % (self.pid, v["replay"]))
                 print("  what: %s" % v["what"])
             code = 1
-        elif "error" in verdicts:
+        elif "error" in verdicts or any(o.verdict == "violated" and not any(v["reproduced"] for v in o.violations) for o in self.obligations):
             for o in self.obligations:
-                if o.verdict == "error":
+                if o.verdict == "error" or (o.verdict == "violated" and not any(v["reproduced"] for v in o.violations)):
                     print("HARNESS-ERROR property=%s obligation=%s %s" % (self.pid, o.name, o.detail[:600]))
             code = 3
         elif "inconclusive" in verdicts:
@@ -356,11 +356,13 @@ def par_explore(run, ob, harness, on_path, acc, max_paths=200000, workers=None, 
         for s_ in d["samples"]:
             if len(ob.samples) < 8:
                 ob.samples.append(s_)
-        known = set(v["signature"] for v in ob.violations)
+        known = dict((v["signature"], i) for i, v in enumerate(ob.violations))
         for v in d["violations"]:
             if v["signature"] not in known:
+                known[v["signature"]] = len(ob.violations)
                 ob.violations.append(v)
-                known.add(v["signature"])
+            elif v["reproduced"] and not ob.violations[known[v["signature"]]]["reproduced"]:
+                ob.violations[known[v["signature"]]] = v      # keep the variant that reproduced on the real code
         if d["verdict"] == "violated":
             ob.verdict = "violated"
         elif d["verdict"] == "error" and ob.verdict != "violated":
